@@ -218,3 +218,31 @@ Proof.
   - rewrite zb_length. lia.
   - rewrite skipn_length. change (2^63) with 9223372036854775808 in *. lia.
 Qed.
+
+(* ------------------------------------------------------------------ *)
+(* property-level statements about the translated source                *)
+Theorem go_appendString_roundtrip ascii bs tail : Z.of_nat (length bs) < 2^63 ->
+  exists o, go_appendString [] (zb bs) ascii = Val o /\
+            parse_string (map z2byte o ++ tail) = SOk (bs, tail).
+Proof.
+  intros H. eexists. split; [apply (go_appendString_spec [] bs ascii H)|].
+  cbn [app]. rewrite unzb. apply text_string_roundtrip.
+Qed.
+
+Theorem go_appendString_ascii_printable bs : Z.of_nat (length bs) < 2^63 ->
+  exists o, go_appendString [] (zb bs) true = Val o /\ Forall (fun z => 32 <= z <= 126) o.
+Proof.
+  intros H. eexists. split; [apply (go_appendString_spec [] bs true H)|].
+  cbn [app]. unfold zb. apply Forall_map.
+  eapply Forall_impl; [|apply emit_ascii_printable].
+  intros b Hb. unfold byte2z. cbv beta in Hb. lia.
+Qed.
+
+(* appending to a non-empty buffer only prefixes it (the Encoder calls
+   appendString(e.out, ...)) *)
+Theorem go_appendString_prefix out bs ascii : Z.of_nat (length bs) < 2^63 ->
+  exists o, go_appendString [] (zb bs) ascii = Val o /\ go_appendString out (zb bs) ascii = Val (out ++ o).
+Proof.
+  intros H. eexists. split; [apply (go_appendString_spec [] bs ascii H)|].
+  rewrite go_appendString_spec by assumption. reflexivity.
+Qed.
